@@ -353,6 +353,33 @@ def main():
         for e in res['errors']:
             broken.append(f"run error in {res['family']}: {e}")
 
+    # the model (or its extraction) no longer builds, so no correspondence can run: search the implementation
+    # alone -- the harness lines carry the verdicts of the implementation oracles in their last field
+    if broken and not violations and ok and not okd:
+        log('[search] model/driver do not build; running the implementation oracles of the harness alone')
+        for fam in P['families']:
+            if violations:
+                break
+            args = [str(a) for a in fam['args']['quick']]
+            nsh = fam.get('shards', {}).get('quick', 1)
+            procs = []
+            for i in range(nsh):
+                hcmd = [HARNESS, fam['name']] + args + ['--seed', str(seed)] + (['--shard', str(i), '--nshards', str(nsh)] if nsh > 1 else [])
+                procs.append((hcmd, subprocess.Popen(hcmd, stdout=subprocess.PIPE, stderr=subprocess.DEVNULL, env=ENV, text=True, errors='replace')))
+            for hcmd, pr in procs:
+                try:
+                    out, _ = pr.communicate(timeout=1800)
+                except subprocess.TimeoutExpired:
+                    pr.kill()
+                    continue
+                for line in out.splitlines():
+                    f = line.split('\t')
+                    m = re.match(r'FAIL (C\d+(?:,C\d+)*)', f[-1])
+                    if m and pid in m.group(1).split(',') and len(violations) < 10:
+                        violations.append(({'property': pid, 'kind': 'property-oracle (implementation only: the model no longer builds)',
+                                            'family': fam['name'], 'case': f[0], 'input': '\t'.join(f[1:-1])[:2000], 'what': f[-1][:2000],
+                                            'reproduce': ' '.join(hcmd), 'broken': broken[:5]}, ''))
+
     # a broken proof/correspondence with no failing input found so far: search deeper before giving up
     if broken and not violations and tier == 'quick' and ok and okd and P.get('search_on_break', True):
         log('[search] proof or correspondence broken; running the generators with other seeds to look for a failing input')
